@@ -542,6 +542,16 @@ mkfunc(struct decl *decl, char *name, struct type *t, struct scope *s)
 	return f;
 }
 
+static void
+delgoto(void *ptr)
+{
+	struct gotolabel *g = ptr;
+
+	if (!g->defined)
+		error(&tok.loc, "label '%s' is used but not defined", g->label->label.u.name);
+	free(g);
+}
+
 void
 delfunc(struct func *f)
 {
@@ -555,7 +565,7 @@ delfunc(struct func *f)
 		free(b->insts.val);
 		free(b);
 	}
-	mapfree(&f->gotos, free);
+	mapfree(&f->gotos, delgoto);
 	free(f);
 }
 
@@ -641,6 +651,7 @@ funcgoto(struct func *f, char *name)
 	if (!g) {
 		g = xmalloc(sizeof(*g));
 		g->label = mkblock(name);
+		g->defined = false;
 		*entry = g;
 	}
 
